@@ -13,7 +13,7 @@ except Exception:
 for p in props:
     cid = p["id"]
     cj = os.path.join(V, "checks", cid, "check.json")
-    if os.path.exists(cj) and not json.load(open(cj)).get("unclaimed"):
+    if os.path.exists(cj) and not json.load(open(cj)).get("unclaimed") and cid not in pending:
         c = json.load(open(cj))
         e = {
             "property_id": cid,
